@@ -84,7 +84,7 @@ def user_sources(ctx, rng, idx):
     mname = ["euler1d", "shallowwater"][idx % 2]
     neq = 3 if mname == "euler1d" else 2
     sub = _subset(idx // 2, neq)
-    s0 = gen.scenario1d(rng, mname=mname, mach_max=1.5, ratio=5.0)
+    s0 = gen.scenario1d(rng, mname=mname, mach_max=1.5, ratio=5.0, intdata=0.15)
     src = _sources(rng, neq, sub)
     mp = dict(s0.mparams)
     model1 = euler.euler1d(gamma=mp["gamma"], source=src) if mname == "euler1d" else shw.shallowwater1d(g=mp["g"], source=src)
@@ -116,7 +116,7 @@ def user_sources(ctx, rng, idx):
 @group(quick=400, thorough=12000)
 def nozzle_geometric(ctx, rng, idx):
     """R_nozzle - R_euler1d = -(1/A)(dA/dx)(rho u, rho u^2, rho u H); constant section gives exactly the Euler operator"""
-    s0 = gen.scenario1d(rng, mname="euler1d", mach_max=1.5, ratio=5.0)
+    s0 = gen.scenario1d(rng, mname="euler1d", mach_max=1.5, ratio=5.0, intdata=0.15)
     sec, kind = _section(rng, s0.mesh.length, "const" if idx % 4 == 0 else None)
     gam = s0.mparams["gamma"]
     modeln = euler.nozzle(sec, gamma=gam)
@@ -154,7 +154,7 @@ def nozzle_geometric(ctx, rng, idx):
 def nozzle_user(ctx, rng, idx):
     """nozzle with user sources = nozzle without + user source on its own equation (every subset of equations)"""
     sub = _subset(idx, 3)
-    s0 = gen.scenario1d(rng, mname="euler1d", mach_max=1.5, ratio=5.0)
+    s0 = gen.scenario1d(rng, mname="euler1d", mach_max=1.5, ratio=5.0, intdata=0.15)
     sec, kind = _section(rng, s0.mesh.length)
     gam = s0.mparams["gamma"]
     src = _sources(rng, 3, sub)
